@@ -315,6 +315,7 @@ pub fn run_c18(ctx: &mut Ctx) {
         "tables: all roles x (none + every record type) for next_input_stream against the documented find-then-next iterator; selections: all 3 roles x all current selections x all 12 requested selections, decided exhaustively incl. 'change nothing' on rejection and 'keeps buffered data' on re-selection; \
          data flow: record sequences containing every stream type in every order with matching and foreign ids, walked with the advance-at-end policy and compared with the specification-side delivery. Non-trivial: all; distinct by case");
     let mut rng = ctx.rng.fork();
+    crate::exec::witness_corpus(&["C18_"], &mut log, &mut im, &mut or);
     log.case("flat-tables");
     for role in 1..=3u16 {
         ex(&mut log, &mut im, &format!("role.streams {role}"));
